@@ -55,6 +55,13 @@ func runC08(c *Ctx) {
 	c.rule(P, "never-ok", "LINK and MKNOD have no path that encodes status NFS3_OK", 2)
 	c.rule(P, "access", "every `granted |= MODIFY|EXTEND|DELETE` in handleAccess is on a ReadOnly==false edge", 3)
 
+	// the guard rule assumes the policy in force cannot change while a request runs:
+	// borrow C16's admit and swap rules (reported under C08 as well)
+	saved := c.Only
+	c.Only = map[string]bool{"admit": true, "swap": true}
+	runC16As(c, P)
+	c.Only = saved
+
 	ent, err := p.entrySet()
 	if err != nil {
 		c.undecided(P, "guard", "entries", "", err.Error())
